@@ -156,10 +156,10 @@ def anyU64 : List Itv := rep 20 (ub (2 ^ 64 - 1))
 /-- limbs in `[0, 2^52)` (`F51x4Reduced`) -/
 def reduced : List Itv := rep 20 (ub (2 ^ 52 - 1))
 /-- lane-wise `≤` the lanes of `(32p, 32p, 32p, 32p)` (the constants `2^56 − 608`, `2^56 − 32` subtracted from in
-`negate_lazy` since /repo commit c662d20) -/
+`negate_lazy` since /repo commit f67a738) -/
 def le32p : List Itv := rep 4 (ub (32 * (2 ^ 51 - 19))) ++ rep 16 (ub (32 * (2 ^ 51 - 1)))
 /-- lane-wise `≤` the lanes of `(16p, 16p, 16p, 16p)`: the constants `negate_lazy` subtracted from BEFORE /repo commit
-c662d20.  Not a contract of any kernel any more; kept to state that unreduced products can exceed it
+f67a738.  Not a contract of any kernel any more; kept to state that unreduced products can exceed it
 (`Dalek.Props.C11.Ifma.mul_output_can_exceed_16p`). -/
 def le16p : List Itv := rep 4 (ub (16 * (2 ^ 51 - 19))) ++ rep 16 (ub (16 * (2 ^ 51 - 1)))
 def pre_new := anyU64
